@@ -11,6 +11,7 @@ EXPLANATION = ('K6a over the whole crate: every call site whose result type carr
                'propagated (`?`, returned), handed to store_err, unwrapped (audited separately) or be one of the reviewed locally-handled sites; a result that is '
                'dropped or only inspected (logged and ignored) anywhere else is reported. Plus: a background error is stored once, requests shutdown and closes '
                'the commit gate; with the error slot set the shutdown path re-enters no pipeline stage; unwrap/expect on error-carrying results are reviewed.')
+EXPLANATION += ' Added: logs are retired / treated as header-less only on UnexpectedEof; metadata is replaced atomically; a torn appended record is never handed over; failed cleanup keeps the queue order and destroys no handle; known finding F48 (stepping-mode enact failure not recorded; instrumentation configuration only).'
 ASSUMPTIONS = ['"reads keep returning committed data" and the recovered content after the fault are not decided',
                'injection completeness (which I/O calls bypass try_io!) is informational only', 'unwind edges ignored']
 TRUSTED = ['rustc MIR construction (nightly)', 'pdb-facts driver', 'rule engine /verif/rules', 'reviewed site tables in props/C16.py']
